@@ -10,7 +10,7 @@ package main
 //
 // Domain restrictions of the generator (each is a stated scope limit of the model, design.d/PIPE.md):
 //   no patches / replacements / vars / components / configurations / helm / plugins,
-//   generators with literal sources only (all behaviours, generatorOptions), no immutable;
+//   generators with literal, env-file and file sources (all behaviours, generatorOptions, binaryData), no immutable;
 //   no `kind: List`, no empty documents, no anchors, no comments,
 //   no internal.config.kubernetes.io annotations in inputs, no ',' in names (PrevIds panic, C12 finding).
 //
@@ -78,6 +78,13 @@ var pipeFieldPool = []pipeFS{
 	{Kind: "Gadget", Path: "spec/extra"},
 }
 
+// an env file / a file source of a generator: path relative to the kustomization, content (bytes: base64 in JSON)
+type pipeSrc struct {
+	Spec    string `json:"spec"` // file sources: "key=path" or "path"; env files: the path
+	Path    string `json:"path"`
+	Content []byte `json:"content"`
+}
+
 type pipeGenSpec struct {
 	Name        string            `json:"name"`
 	Namespace   string            `json:"namespace"`
@@ -88,6 +95,8 @@ type pipeGenSpec struct {
 	Labels      map[string]string `json:"labels"`
 	Annos       map[string]string `json:"annotations"`
 	DisableHash bool              `json:"disableHash"`
+	Envs        []pipeSrc         `json:"envs,omitempty"`
+	FileSrcs    []pipeSrc         `json:"fileSrcs,omitempty"`
 }
 
 // generatorOptions: of one kustomization
@@ -212,6 +221,7 @@ type pipeGen struct {
 	nextID int
 	refs   int
 	locals int
+	srcN   int
 }
 
 func pipePodSpec(rng *Rng) map[string]interface{} {
@@ -584,6 +594,37 @@ func (g *pipeGen) genSpec(rng *Rng, secret bool, layer *pipeDir) pipeGenSpec {
 		}
 		s.Literals = append(s.Literals, k+"="+v)
 	}
+	g.srcN++
+	if rng.Chance(22) {
+		lines := []string{"E1=one", "# a comment", "", "E2=two words", "  E3=x=y", "BARE"}
+		n := 1 + rng.Intn(len(lines))
+		txt := strings.Join(lines[:n], "\n") + "\n"
+		if rng.Chance(20) {
+			txt = "\xef\xbb\xbf" + txt // BOM
+		}
+		pth := fmt.Sprintf("g%d.env", g.srcN)
+		s.Envs = append(s.Envs, pipeSrc{Spec: pth, Path: pth, Content: []byte(txt)})
+	}
+	if rng.Chance(25) {
+		nf := 1 + rng.Intn(2)
+		for i := 0; i < nf; i++ {
+			pth := fmt.Sprintf("f%d-%d.txt", g.srcN, i)
+			spec := pth
+			if rng.Chance(50) {
+				spec = fmt.Sprintf("fk%d=%s", i, pth)
+			}
+			var content []byte
+			switch rng.Intn(4) {
+			case 0:
+				content = []byte{0xff, 0xfe, 0x00, 0x41} // not UTF-8: binaryData in a ConfigMap
+			case 1:
+				content = []byte("line1\nline2\n")
+			default:
+				content = []byte(rng.Pick(pipeAdvValues))
+			}
+			s.FileSrcs = append(s.FileSrcs, pipeSrc{Spec: spec, Path: pth, Content: content})
+		}
+	}
 	if secret && rng.Chance(30) {
 		s.Type = rng.Pick([]string{"Opaque", "kubernetes.io/tls", "x"})
 	}
@@ -902,6 +943,20 @@ func pipeGenYaml(s pipeGenSpec, secret bool) map[string]interface{} {
 		}
 		m["literals"] = l
 	}
+	if len(s.Envs) > 0 {
+		l := []interface{}{}
+		for _, e := range s.Envs {
+			l = append(l, e.Spec)
+		}
+		m["envs"] = l
+	}
+	if len(s.FileSrcs) > 0 {
+		l := []interface{}{}
+		for _, e := range s.FileSrcs {
+			l = append(l, e.Spec)
+		}
+		m["files"] = l
+	}
 	if secret && s.Type != "" {
 		m["type"] = s.Type
 	}
@@ -981,6 +1036,13 @@ func pipeRenderDir(pc *pipeCase, d *pipeDir, path string, top bool) {
 			l = append(l, m)
 		}
 		k["labels"] = l
+	}
+	for _, gl := range [][]pipeGenSpec{d.CmGens, d.SecGens} {
+		for _, s := range gl {
+			for _, e := range append(append([]pipeSrc{}, s.Envs...), s.FileSrcs...) {
+				pc.Files[path+"/"+e.Path] = string(e.Content)
+			}
+		}
 	}
 	if len(d.CmGens) > 0 {
 		var l []interface{}
@@ -1125,8 +1187,16 @@ func pipeCoqPairs(m map[string]string) string {
 }
 
 func pipeCoqGen(s pipeGenSpec) string {
-	return fmt.Sprintf("(mkPGen %s %s %s %s %s %s %s %s %s)", coqStr(s.Name), coqStr(s.Namespace), coqStr(s.Behavior), coqStrList(s.Literals),
-		coqStr(s.Type), coqBool(s.HasOpts), pipeCoqPairs(s.Labels), pipeCoqPairs(s.Annos), coqBool(s.DisableHash))
+	var envs, files []string
+	for _, e := range s.Envs {
+		envs = append(envs, coqStr(string(e.Content)))
+	}
+	for _, e := range s.FileSrcs {
+		files = append(files, fmt.Sprintf("(%s, %s)", coqStr(e.Spec), coqStr(string(e.Content))))
+	}
+	return fmt.Sprintf("(mkPGenX %s %s %s %s %s %s %s %s %s [%s] [%s])", coqStr(s.Name), coqStr(s.Namespace), coqStr(s.Behavior), coqStrList(s.Literals),
+		coqStr(s.Type), coqBool(s.HasOpts), pipeCoqPairs(s.Labels), pipeCoqPairs(s.Annos), coqBool(s.DisableHash),
+		strings.Join(envs, "; "), strings.Join(files, "; "))
 }
 
 var customFields bool // set by pipeCoqDir when a labels entry carries custom fields (distribution only)
